@@ -340,9 +340,9 @@ def run_program(ops):
             err = w.instantiate(x, op['c'], op['cfg'])
             ev = {'ev': act, 'x': x, 'c': op['c'], 'cfg': _canon(op['cfg'])}
         else:
-            err = w.mutate(x, op['mut'])
+            w.mutate(x, op['mut'])     # a refused mutation is just a mutation (the description tells)
+            err = None
             ev = {'ev': act, 'x': x, 'mut': _canon(op['mut'])}
-            err = None                 # a refused mutation is just a mutation (the description tells)
         if err:
             errs[x] = err
         cur = w.describe(errs)
@@ -564,14 +564,14 @@ def run(chk):
                 cur.append(ev)
         runs.append(cur)
         for ops, evs in zip(g, runs):
-            if len(evs) < len(ops) and not evs[-1]['bad']:
+            if len(evs) < len(ops) and not (evs and evs[-1]['bad']):
                 chk.violation({'module': 'ClassModel', 'clause': 'harness: program cut short'}, {'program': ops})
     _judge(chk, traces, glist, 'Gen_ClassModel')
     phase('judge')
     if traces:
         chk.sample({'program': glist[len(glist) // 2][0], 'desc_after_last_op': traces[len(glist) // 2][-1]['desc']})
     # code -> spec: random programs beyond the catalogue
-    n = 300 if quick else 4000
+    n = 300 if quick else 3000
     seeds = [chk.seed * 1000003 + i for i in range(n)]
     rtraces = pool_map(_random_trace, seeds)
     phase('random')
